@@ -4,8 +4,12 @@ import glob, json, os, re
 VERIF = os.path.dirname(os.path.dirname(os.path.abspath(__file__)))
 meta = json.load(open(os.path.join(VERIF, "specs", "properties_meta.json")))
 served = {}
+reg = json.load(open(os.path.join(VERIF, "specs", "registered.json")))
+regset = set(reg["verus"]) | set(reg["kani"])
 for p in glob.glob(os.path.join(VERIF, "specs", "verus", "*.vspec")) + glob.glob(os.path.join(VERIF, "specs", "kani", "*.kspec")):
     head = open(p).read(4000)
+    if os.path.splitext(os.path.basename(p))[0] not in regset:
+        continue
     m = re.search(r"^//@serves (.*)$", head, re.M)
     if m:
         for c in m.group(1).split():
